@@ -301,9 +301,45 @@ def verify_fedavg_round_apfl(p):
   pass  # the APFL round skeleton is the FedAvg skeleton plus the per-client state table (C10 frame, C17 apfl.keys)
 
 
+REG_SINKS = ('models.grad', 'models.model_grad', 'models.AverageLossEvaluator')   # library constructors taking a regularizer
+REG_LOCAL = ('create_train_for_each_client', 'create_scaled_loss')   # module helpers: only where their def takes one
+
+
+def v_regularizer_sites(p):
+  """The reductions to FedAvg are stated for `models.grad(per_example_loss, regularizer)`: in every algorithm builder with a
+  `regularizer` option, every gradient / loss constructor that accepts a regularizer receives exactly that option (an option
+  honoured on the evaluation path and dropped on the training path makes one cluster differ from FedAvg)."""
+  import ast
+  from ..extract import parse
+  total = 0
+  for alg in ('hyp_cluster', 'mime', 'mime_lite', 'agnostic_fed_avg', 'fed_prox'):
+    rel = f'fedjax/algorithms/{alg}.py'
+    _, tree = parse(rel)
+    takes = {n.name for n in tree.body if isinstance(n, ast.FunctionDef) and n.name in REG_LOCAL and
+             'regularizer' in [a.arg for a in n.args.args + n.args.kwonlyargs]}
+    for fn in [n for n in ast.walk(tree) if isinstance(n, ast.FunctionDef)]:
+      if 'regularizer' not in [a.arg for a in fn.args.args + fn.args.kwonlyargs]:
+        continue
+      bad, sites = [], 0
+      for c in ast.walk(fn):
+        if isinstance(c, ast.Call) and (ast.unparse(c.func) in REG_SINKS or ast.unparse(c.func) in takes):
+          sites += 1
+          passed = [ast.unparse(a) for a in c.args[1:]] + [ast.unparse(k.value) for k in c.keywords if k.arg == 'regularizer']
+          if 'regularizer' not in passed:
+            bad.append(f'{rel}:{c.lineno} {ast.unparse(c)[:70]}')
+      total += sites
+      if sites:
+        p.extract(rel, fn.name) if fn in tree.body else None
+        p.oblige(f'reg.callsite:{alg}.{fn.name}', [], z3.BoolVal(not bad), kind='precondition', fn=f'{alg}.{fn.name}',
+                 detail=f'{sites} gradient / loss constructor call(s) in {alg}.{fn.name} receive the regularizer option ({bad})')
+  p.oblige('reg.callsite.sites', [], z3.BoolVal(total >= 6), kind='post', fn='algorithms',
+           detail=f'{total} constructor call sites with a regularizer option found (vacuity guard)')
+
+
 def build(p):
   D = 'native/C12.py'
   p.native('', D, 'equiv')
+  v_regularizer_sites(p)
   v_fedprox(p)
   v_mimelite(p)
   v_mime_onestep(p)
